@@ -220,7 +220,7 @@ def run_scenario(task):
             rec = record(ctx, env, model, ob.label, ob.snap.block if ob.snap is not None else None)
             core.Ctx.cur = None
             try:
-                for level in (1, 2):
+                for level in ((1,) if ctx.scratch.get('level1_only') else (1, 2)):
                     cenv, err = _conc_run(scn, level, rec)
                     failed = [o for o in cenv.obligations if o.label == ob.label and not o.cond]
                     if ob.label.startswith('library_raised.'):
@@ -783,14 +783,36 @@ def finish(pid, a, seed, prop, results, wall):
             errors.append('%s: translation validation: %s' % (r['scenario'], json.dumps(m)[:600]))
     # confirm each violation in a fresh process against the real library
     confirmed = []
+    # every violation has already been reproduced in its worker process; the fresh-process confirmation is done for one
+    # violation per (scenario, obligation family), at most MAX_CONFIRM of them, in parallel
+    MAX_CONFIRM = int(os.environ.get('SX_MAX_CONFIRM', '12'))
+    todo, seen_keys = [], set()
     for v in violations:
+        key = (v['scenario'], v['label'].split('[')[0])
+        if key in seen_keys:
+            continue
+        seen_keys.add(key)
+        todo.append(v)
+    not_reconfirmed = max(0, len(todo) - MAX_CONFIRM)
+    todo = todo[:MAX_CONFIRM]
+
+    def _confirm(v):
         cp = subprocess.run([sys.executable, '-m', 'sx.runner', pid, '--replay', v['replay']], cwd=VERIF,
                             capture_output=True, text=True, env=dict(os.environ, OMP_NUM_THREADS='1'))
-        if cp.returncode == 1:
-            confirmed.append(v)
-        else:
-            inconclusive.append(dict(scenario=v['scenario'], label=v['label'],
-                                     reason='in-process replay reproduced, fresh-process replay did not'))
+        return cp.returncode
+    if todo:
+        from concurrent.futures import ThreadPoolExecutor
+        with ThreadPoolExecutor(max_workers=min(8, len(todo))) as ex:
+            codes = list(ex.map(_confirm, todo))
+        for v, rc in zip(todo, codes):
+            if rc == 1:
+                confirmed.append(v)
+            else:
+                inconclusive.append(dict(scenario=v['scenario'], label=v['label'],
+                                         reason='in-process replay reproduced, fresh-process replay did not'))
+    if not_reconfirmed:
+        print('NOTE property=%s %d further reproduced violations were not re-confirmed in a fresh process' % (
+            pid, not_reconfirmed))
     for kf, where in sorted(known_hit.items()):
         print('KNOWN-FINDING: property=%s %s [%s; %d obligations, e.g. %s]' % (
             pid, known[kf]['what'], kf, len(where), where[0]))
